@@ -12,3 +12,12 @@ pub fn any_bytes_vec<const N: usize>(max_len: usize) -> Vec<u8> {
     v.truncate(len);
     v
 }
+
+/// Trivial harness used by `./check --setup` to force a full build of the crate graph.
+#[cfg(kani)]
+#[kani::proof]
+pub fn setup_probe() {
+    let x: u8 = kani::any();
+    assert!(x as u16 + 1 > 0);
+    kani::cover!(x == 7, "probe reachable");
+}
